@@ -77,7 +77,7 @@ def ident_class(name):
 def rename_class(r):
     if r in (None, "none", ""):
         return "none"
-    return "dashed" if "-" in r else "keyword" if r in ("class", "default", "type") else "plain"
+    return "dashed" if "-" in r else "keyword" if r in ("class", "default", "type") else "dollar" if "$" in r else "plain"
 
 
 def signature(lang, case, kind, which="field"):
